@@ -2,6 +2,7 @@ package simrt
 
 import (
 	"fmt"
+	"runtime"
 	"sync"
 	"unsafe"
 )
@@ -95,6 +96,7 @@ func TryLock[L Locker](l L, site int) bool {
 		}
 		m.locked = true
 		m.owner = sim.running.ID
+		sim.running.held++
 		if sim.race != nil {
 			sim.race.acquire(sim.running, m.vc)
 		}
@@ -105,6 +107,7 @@ func TryLock[L Locker](l L, site int) bool {
 			return false
 		}
 		r.writer = true
+		sim.running.held++
 		if sim.race != nil {
 			sim.race.acquire(sim.running, r.wvc)
 			sim.race.acquire(sim.running, r.rvc)
@@ -122,8 +125,38 @@ func (sim *Sim) lockMutex(p unsafe.Pointer, site int) {
 	}
 	m.locked = true
 	m.owner = sim.running.ID
+	sim.running.held++
 	if sim.race != nil {
 		sim.race.acquire(sim.running, m.vc)
+	}
+}
+
+// noteUnlock keeps track of how many write locks the task holds and, when the
+// unlock runs as a deferred call during panic unwinding, how many it held at
+// the time of the panic.
+func (sim *Sim) noteUnlock() {
+	t := sim.running
+	if t == nil || t.held <= 0 {
+		return
+	}
+	if t.held > t.heldAtPanic && panicking() {
+		t.heldAtPanic = t.held
+	}
+	t.held--
+}
+
+func panicking() bool {
+	var pcs [64]uintptr
+	n := runtime.Callers(2, pcs[:])
+	fr := runtime.CallersFrames(pcs[:n])
+	for {
+		f, more := fr.Next()
+		if f.Function == "runtime.gopanic" {
+			return true
+		}
+		if !more {
+			return false
+		}
 	}
 }
 
@@ -137,6 +170,7 @@ func (sim *Sim) unlockMutex(p unsafe.Pointer, site int) {
 		m.vc = sim.race.release(sim.running, nil)
 	}
 	m.locked = false
+	sim.noteUnlock()
 	sim.schedPoint(site, "Mutex.Unlock", nil)
 }
 
@@ -179,6 +213,7 @@ func (sim *Sim) lockRW(p unsafe.Pointer, site int) {
 		}
 	}
 	r.writer = true
+	sim.running.held++
 	if sim.race != nil {
 		sim.race.acquire(sim.running, r.wvc)
 		sim.race.acquire(sim.running, r.rvc)
@@ -195,6 +230,7 @@ func (sim *Sim) unlockRW(p unsafe.Pointer, site int) {
 		r.rvc = nil
 	}
 	r.writer = false
+	sim.noteUnlock()
 	for _, w := range r.rq {
 		w.granted = true
 		r.readers++
